@@ -195,6 +195,7 @@ func cmdC02(args []string) {
 				for k := 0; k < run; k++ {
 					st = append(st, encVal(kv)...)
 				}
+				nunit := len(st)
 				st = append(st, encVal(ping)...)
 				st = append(st, encVal(nest(4, Val{T: "bulk", P: []byte("x")}))...)
 				st = append(st, encVal(Val{T: "arr", E: []Val{}})...)
@@ -211,6 +212,11 @@ func cmdC02(args []string) {
 				for _, chunks := range deliveries {
 					ev := chunkedEvent(st, chunks)
 					ev["src"] = "history"
+					if run > 1000 { // judged as a periodic stream (ChunkedRunOK): unit x run, then the tail
+						ev["ev"] = "chunkedrun"
+						ev["unit"], ev["run"], ev["tail"] = B(encVal(kv)), run, B(st[nunit:])
+						delete(ev, "stream")
+					}
 					emit(ev)
 				}
 			}
